@@ -242,8 +242,10 @@ def case_blocks(fn, switch_stmt=None):
     return out
 
 
-def local_writes(fn, name):
+def local_writes(fn, name, must=True):
     """Assignments (not the declaration) to local `name`."""
+    if must and not _has_local(fn, name):
+        raise AnalysisBroken("anchor local '%s' not found in %s (renamed?)" % (name, fn.pq))
     out = []
     for i, n in enumerate(fn.nodes):
         tgt = None
@@ -261,11 +263,26 @@ def local_writes(fn, name):
     return out
 
 
-def local_init(fn, name):
+def _has_local(fn, name):
+    if any(p["name"] == name for p in fn.params):
+        return True
+    for i in fn.all("decl"):
+        for v in fn.nodes[i].get("vars", []):
+            if v["name"] == name or name in [b.split("@")[0] for b in v.get("bindings", [])]:
+                return True
+    return False
+
+
+def local_init(fn, name, must=True):
+    """(init node id, var record) of local `name`.  A rule that anchors on a local which
+    no longer exists (renamed) cannot judge the code: that is 'analysis broken', not a
+    violation."""
     for i in fn.all("decl"):
         for v in fn.nodes[i].get("vars", []):
             if v["name"] == name:
                 return v.get("init", -1), v
+    if must and not _has_local(fn, name):
+        raise AnalysisBroken("anchor local '%s' not found in %s (renamed?)" % (name, fn.pq))
     return -1, None
 
 
